@@ -20,6 +20,7 @@ import (
 	"sync/atomic"
 	"syscall"
 	"testing"
+	"time"
 	"unsafe"
 )
 
@@ -69,8 +70,11 @@ func vRunSlotCache(sc *vSCScenario) ([]vOutEvent, map[string]interface{}) {
 		out = append(out, vOutEvent{E: e, G: g, K: k, N: n, M: m, Err: err})
 		mu.Unlock()
 	}
-	mp := vNewManualPoll(s, "poller")
-	p := mp.p
+	p, err := openDefaultPoll()
+	if err != nil {
+		return nil, map[string]interface{}{"id": sc.ID, "stuck": "setup: " + err.Error(), "taken": []string{}}
+	}
+	s.gateFetched = true // the real Wait loop runs as the poller actor; the point between epoll_wait and the handler is a schedule point
 	vCur = s
 	// leave exactly Supply never-used slots in the first block
 	held := []*FDOperator{p.opcache.alloc()} // (creates the first block)
@@ -85,22 +89,32 @@ func vRunSlotCache(sc *vSCScenario) ([]vOutEvent, map[string]interface{}) {
 	conns := map[string]*vSCConn{}
 	fdOwner := map[int]string{}
 	code := map[string]int32{"A": 1, "B": 2, "G": 3}
+	inBatch := false
 	s.wrapHook = func(pt int32, obj unsafe.Pointer, a, b int64) {
-		if pt == vpCacheAlloc {
+		switch pt {
+		case vpCacheAlloc:
 			if g := vGID(); g == s.mainGID || s.lookup(g) != nil {
 				if _, ok := names[int32(a)]; !ok {
 					names[int32(a)] = len(names) + 1
 				}
 			}
+		case vpPollFetched:
+			if act := s.lookup(vGID()); act != nil && act.name == "poller" {
+				for i := 0; i < int(a); i++ {
+					if op := p.getOperator(0, unsafe.Pointer(&p.events[i].data)); op != nil && op != p.wop {
+						ev("Fetched", "", int(op.index), 0, "")
+					}
+				}
+				inBatch = true
+			}
+		case vpPollWait:
+			if act := s.lookup(vGID()); act != nil && act.name == "poller" && inBatch {
+				inBatch = false
+				ev("BatchEnd", "", 0, 0, "")
+			}
 		}
 		s.hook(pt, obj, a, b)
 	}
-	mp.onFetch = func(slots []int) {
-		for _, sl := range slots {
-			ev("Fetched", "", sl, 0, "")
-		}
-	}
-	mp.onBatchEnd = func() { ev("BatchEnd", "", 0, 0, "") }
 	for _, name := range sc.Conns {
 		name := name
 		c := &vSCConn{name: name}
@@ -229,7 +243,19 @@ func vRunSlotCache(sc *vSCScenario) ([]vOutEvent, map[string]interface{}) {
 		outp = append(outp, ret...)
 		return outp
 	}
-	mp.start()
+	exited := make(chan struct{})
+	s.Go("poller", func() {
+		if a := s.lookup(vGID()); a != nil {
+			a.daemon = true
+		}
+		defer close(exited)
+		defer func() {
+			if x := recover(); x != nil {
+				ev("Panic", "poller", 0, 0, fmt.Sprint(x))
+			}
+		}()
+		p.Wait()
+	})
 	s.Run()
 	// epilogue: nobody who is still registered sits on unread data (the poller has nothing left to do)
 	healthy := 1
@@ -246,7 +272,11 @@ func vRunSlotCache(sc *vSCScenario) ([]vOutEvent, map[string]interface{}) {
 	ev("Epilogue", "", healthy, 1, s.stuck)
 	info := map[string]interface{}{"id": sc.ID, "taken": s.taken, "gates": s.gateLog, "stalled": s.stalled, "stuck": s.stuck, "drift": s.drift, "proj": s.projLog, "steps": len(s.taken)}
 	verifHook = nil
-	mp.close()
+	p.Close()
+	select {
+	case <-exited:
+	case <-time.After(2 * time.Second):
+	}
 	for _, c := range conns {
 		if c.open {
 			syscall.Close(c.fd)
